@@ -18,6 +18,7 @@ import Cfdm.Driver.C12
 import Cfdm.Driver.C17
 import Cfdm.Driver.C13
 import Cfdm.Driver.C01
+import Cfdm.Driver.C09
 open Cfdm.Driver
 
 def step (line : String) : String :=
@@ -47,6 +48,7 @@ def step (line : String) : String :=
       | ["C17", sub] => C17.run sub kv
       | ["C13", sub] => C13.run sub kv
       | ["C01", sub] => C01.run sub kv
+      | ["C09", sub] => C09.run sub kv
       | _ => "bad-op"
 
 partial def loop (h : IO.FS.Stream) : IO Unit := do
